@@ -91,8 +91,19 @@ def callback_families(g, rng):
             return [n, g.Z0()]
         return n
 
+    def u1_to_parsed_operator(n):
+        # the replacement is itself the result of a parse: an operator node, which records no span
+        if isinstance(n, g.U1):
+            return g.parse('1+2')[0]
+        return n
+
+    def b2_to_parsed_prefix(n):
+        if isinstance(n, g.B2):
+            return g.parse('-1!')[0]
+        return n
+
     return [identity, u1_to_v1, v1_to_str, b2_to_list, t3_with_meta, q5_without_meta, infix_to_prefix, rebuild, z0_to_none,
-            wrap_v1, wrap_b2_in_list]
+            wrap_v1, wrap_b2_in_list, u1_to_parsed_operator, b2_to_parsed_prefix]
 
 
 def logged(g, cbs, log):
